@@ -63,7 +63,8 @@ class Names(Sub):
                 if IDENT.match(s) and not CELLISH.match(s) and s not in PREDEF:
                     yield s
         for s in ('x' * 50, 'name_with_underscores', 'CamelCaseName', 'v' + 'ab' * 100, 'Total_2019_q', 'rate_', '__', 'X',
-                  'trueish', 'TRUEX', 'nullable', 'e', 'pi', 'sum', 'SUMX'):
+                  'trueish', 'TRUEX', 'nullable', 'e', 'pi', 'sum', 'SUMX', 'true', 'True', 'tRUE', 'false', 'False',
+                  'null', 'Null', 'nULL'):
             yield s
 
     def check(self, env, case):
@@ -268,6 +269,11 @@ POSITIONS = ['{x}', '{x}+1', '1+{x}', '{x}*2', '2/{x}', '{x}&"a"', '"a"&{x}', '{
              'SUM({x},1)', '{{1,{x}}}', 'IF(TRUE,1,{x})', 'IF(FALSE,{x},2)', 'LEN({x})', '({x})', 'ABS({x})+1']
 
 
+def hash_pick(v):
+    # deterministic 1-in-3 selection for the quick tier
+    return sum(ord(c) for c in v) % 3 == 0
+
+
 def unknown_fn_names(tier):
     sup, unsup = supported_lists()
     supset = set(sup)
@@ -280,6 +286,19 @@ def unknown_fn_names(tier):
             if re.match(r'[A-Za-z][A-Za-z0-9_.]*\Z', s) and s not in supset:
                 names.append(s)
     names += ['NOSUCH', 'A1', 'XFD10', 'Sum', 'sum', 'NO.SUCH', 'SUMX', 'XSUM', 'TRUEX', 'F', 'VERY_LONG_FUNCTION_NAME_' * 3]
+    # near misses of documented names: a dot or an underscore inserted, a character doubled or dropped
+    for nm in sup:
+        variants = set()
+        for i in range(1, len(nm)):
+            variants.add(nm[:i] + '.' + nm[i:])
+            variants.add(nm[:i] + '_' + nm[i:])
+        variants.add(nm + nm[-1])
+        variants.add(nm.replace('.', ''))
+        if len(nm) > 2:
+            variants.add(nm[:-1])
+        for v in sorted(variants):
+            if v not in supset and re.match(r'[A-Za-z][A-Za-z0-9_.]*\Z', v) and (tier == 'thorough' or hash_pick(v)):
+                names.append(v)
     return names, unsup
 
 
